@@ -1,7 +1,8 @@
 (* C01 — Space Packet primary header is encoded exactly per CCSDS 133.0-B-2, bijectively.
    Statements only; every proof is `exact <lemma>` from Proofs/SpacePacketProofs.v. *)
 From Coq Require Import ZArith List.
-From SP Require Import Base.Result Base.Bytes Model.SpacePacket Spec.SpacePacketSpec Proofs.SpacePacketProofs.
+From SP Require Import Base.Result Base.Bytes Model.SpacePacket Spec.SpacePacketSpec Proofs.SpacePacketProofs
+  Proofs.SpacePacketRefusal.
 Import ListNotations.
 Open Scope Z_scope.
 
@@ -113,6 +114,65 @@ Theorem C01_space_packet_pack : forall h sec ud, sph_valid h ->
   end.
 Proof. exact space_packet_pack_spec. Qed.
 Print Assumptions C01_space_packet_pack.
+
+(* explicit decode: six octets followed by anything decode to the fields they denote *)
+Theorem C01_unpack_octets : forall b0 b1 b2 b3 b4 b5 rest, wf_bytes [b0; b1; b2; b3; b4; b5] ->
+  sph_unpack (b0 :: b1 :: b2 :: b3 :: b4 :: b5 :: rest) = Ok (sph_of_octets b0 b1 b2 b3 b4 b5).
+Proof. exact sph_unpack_octets. Qed.
+Print Assumptions C01_unpack_octets.
+
+(* ---- "out-of-range values are refused with ValueError, not encoded" beyond the constructor ---- *)
+(* the sub-object constructors PacketId / PacketSeqCtrl and the helper encoders built on them *)
+Theorem C01_helpers_refuse : forall t s a f c,
+  (~ 0 <= a <= 2047 -> pid_new t s a = Err EValue /\ get_sp_packet_id_raw t s a = Err EValue) /\
+  (~ 0 <= c <= 16383 -> psc_new f c = Err EValue /\ get_sp_psc_raw f c = Err EValue).
+Proof. exact sph_helpers_refuse. Qed.
+Print Assumptions C01_helpers_refuse.
+
+Theorem C01_from_composite_refuses : forall t a c d s f v,
+  ~ (0 <= a <= 2047 /\ 0 <= c <= 16383 /\ 0 <= d <= 65535) ->
+  sph_from_composite t a c d s f v = Err EValue.
+Proof. exact sph_from_composite_refuses. Qed.
+Print Assumptions C01_from_composite_refuses.
+
+(* Setter path.  The attribute setters of SpacePacketHeader (apid, seq_count, data_len, ...) do not
+   validate (Model/SpacePacket.v, sph_apply).  Proposed statement
+     forall h v, sph_valid h -> ~ 0 <= v <= 2047 -> sph_pack (sph_apply h (SoApid v)) = Err EValue
+   (and its analogues for the sequence count and the data length) is FALSE of the model and of the
+   code: pack() never raises ValueError; an out-of-range APID / count in 0..65535 spills into the
+   neighbouring field and IS encoded; only values that do not fit the 16-bit word, and every
+   out-of-range data length, are refused -- with struct.error. *)
+Theorem C01_pack_never_valueerror : forall h o, sph_pack (sph_apply h o) <> Err EValue.
+Proof. exact sph_setter_never_evalue. Qed.
+Print Assumptions C01_pack_never_valueerror.
+
+(* witness: header of zeros, h.apid = 2048 -> 08 00 00 00 00 00 (secondary-header flag set, APID 0) *)
+Theorem C01_setter_apid_refuted : exists h v, sph_valid h /\ ~ 0 <= v <= 2047 /\
+  sph_pack (sph_apply h (SoApid v)) =
+    Ok (sph_layout {| ver := ver h; ptype := ptype h; shf := 1; apid := 0;
+                      sflags := sflags h; scount := scount h; dlen := dlen h |}).
+Proof. exact sph_setter_apid_refuted. Qed.
+Print Assumptions C01_setter_apid_refuted.
+
+(* witness: header of zeros, h.seq_count = 16384 -> 00 00 40 00 00 00 (flags 01, count 0) *)
+Theorem C01_setter_count_refuted : exists h v, sph_valid h /\ ~ 0 <= v <= 16383 /\
+  sph_pack (sph_apply h (SoCount v)) =
+    Ok (sph_layout {| ver := ver h; ptype := ptype h; shf := shf h; apid := apid h;
+                      sflags := 1; scount := 0; dlen := dlen h |}).
+Proof. exact sph_setter_count_refuted. Qed.
+Print Assumptions C01_setter_count_refuted.
+
+(* what does hold on the setter path: an out-of-range data length is never encoded (struct.error),
+   nor is an APID outside the 16-bit word *)
+Theorem C01_setter_dlen_out_of_range : forall h v, sph_valid h -> ~ 0 <= v <= 65535 ->
+  sph_pack (sph_apply h (SoDlen v)) = Err EStruct.
+Proof. exact sph_setter_dlen_out_of_range. Qed.
+Print Assumptions C01_setter_dlen_out_of_range.
+
+Theorem C01_setter_apid_large : forall h v, sph_valid h -> (v < 0 \/ 65536 <= v) ->
+  sph_pack (sph_apply h (SoApid v)) = Err EStruct.
+Proof. exact sph_setter_apid_large. Qed.
+Print Assumptions C01_setter_apid_large.
 
 (* non-vacuity of sph_valid *)
 Example C01_valid_inhabited :
